@@ -7,8 +7,10 @@ HERE = os.path.dirname(os.path.dirname(os.path.abspath(__file__)))
 props = [json.loads(l) for l in open(os.path.join(HERE, "properties.jsonl"))]
 
 NOTE = ("Trusted base: Coq 8.16.1 kernel (no native_compute; vm_compute only in Examples / refuted witnesses); "
-        "harness/translate.py for the tables tied in coq/Generated/Tie.v; extraction with ExtrOcamlBasic + "
-        "ExtrOcamlString only (no Extract Constant) and ocaml/main.ml; the correspondence harness; CPython, pandas, "
+        "harness/translate.py for the tables tied in coq/Generated/Tie.v; extraction with the standard files "
+        "ExtrOcamlBasic + ExtrOcamlString (+ ExtrOcamlChar) only -- no Extract directive of our own; their "
+        "directives are listed in DESIGN.md 10.8 and in every evidence file -- and ocaml/main.ml; the "
+        "correspondence harness; CPython, pandas, "
         "numpy, scipy are modelled, not verified. No axioms declared; Print Assumptions output is in the evidence.")
 
 COMMON = (" Tie: the model is hand-written Gallina mirroring the Python branch by branch; its tables are regenerated "
